@@ -148,6 +148,7 @@ type reqRec struct {
 	Success   bool              `json:"success"`   // honest answer, model operation succeeded, response completely written
 	Tolerated bool              `json:"tolerated"` // rm only: honest "not pinned" answer
 	ModelErr  string            `json:"model_error,omitempty"`
+	Refused   bool              `json:"refused,omitempty"` // add: the model refused up front, the scripted stream plan never started
 }
 
 type daemon struct {
@@ -543,6 +544,7 @@ func (d *daemon) serveAdd(w http.ResponseWriter, r *http.Request, rec *reqRec) {
 	if refusal != "" {
 		d.mu.Lock()
 		rec.ModelErr = refusal
+		rec.Refused = true
 		d.mu.Unlock()
 		w.Header().Set("Content-Type", "application/json")
 		w.WriteHeader(500)
